@@ -71,7 +71,7 @@ def classify(clause, case, verdict):
 
 def run(ctx):
     facts = gen(ctx)
-    ctx.prove(families=("reobserve",))
+    ctx.prove(families=("reobserve", "processor"))
     env = {}
     if facts:
         env = {"VERIF_C17_WINDOW_NS": str(facts["window"]["ns"]), "VERIF_C17_TICK_NS": str(facts["tick"]["ns"])}
@@ -119,6 +119,14 @@ def run(ctx):
         ctx.cov["distinct_nontrivial"] += n_ok
     ctx.cov["evaluations"] += total
     ctx.cov["samples"] += samples
+    # ---- 3. the caller named in the anchors (processor/cleanup.go): a retry tick posts its re-observation request without
+    # blocking - clause cleanup-blocked-on-full-request-queue on the processor scenarios (ticks with 0..2 free slots, the
+    # full-queue family); a handler that does not return within the harness' deadline is reported, never waited for
+    from checks import proccommon
+    keep = {k: ctx.cov.get(k) for k in ("generator_distribution", "driver_stats")}
+    proccommon.run_processor(ctx, "C17", "")
+    ctx.cov["generator_distribution"] = {"reobserve": keep["generator_distribution"], "processor": ctx.cov.get("generator_distribution")}
+    ctx.cov["driver_stats"] = keep["driver_stats"]
     ctx.cov["rule"] = ("sessions on the real handleReobservationRequests loop (harness-owned clock; the ticker channel is driven by the "
                        "harness with the period the loop asked for): window-boundary sessions (forward at ticker phases around "
                        "2P-W and 3P-W, ticks at k*P and at forward+W+{-2..2} ns, the same request repeated after every tick), every "
